@@ -1,7 +1,7 @@
 (* C13 / C15 — the theorems in their final form (over [copy_top] and [overlay_all]). *)
 From Coq Require Import List NArith Bool Lia ZifyN ZifyNat ZifyBool.
 From FS Require Import Sx Model.Path Model.SymMode Model.Copier Model.CopySpec Proofs.Lex
-  Proofs.CopierP Proofs.CopyOpsP Proofs.CopyDentP Proofs.CopyNodeP Proofs.CopyMkdirP Proofs.CopyConflictP
+  Proofs.CopierP Proofs.CopyOpsP Proofs.CopyDentP Proofs.CopyLinkP Proofs.CopyNodeP Proofs.CopyMkdirP Proofs.CopyConflictP
   Proofs.CopyTopP.
 Import ListNotations.
 Open Scope N_scope.
@@ -12,6 +12,16 @@ Definition sel_all (p : list (list N)) : bool := true.
 (* sources without multiply-linked files (link groups are the gap of the _partial theorems) *)
 Definition no_link_groups (sroot : snode) : Prop := forall i, multi_of sroot i = false.
 Definition wf_src (sroot : snode) : Prop := wf_s sroot /\ is_dir (sdent sroot) = true.
+(* all names of a multiply-linked regular file carry one dentry (as the names of one inode do) *)
+Definition links_consistent (sroot : snode) : Prop := exists sdof, cons_s (multi_of sroot) sdof sroot.
+
+Lemma cons_s_nolinks multi sdof : (forall i, multi i = false) -> forall n, cons_s multi sdof n.
+Proof.
+  intros Hn. induction n as [nm ino d kids IH] using snode_ind2. apply cons_s_unfold. split; auto.
+  intros _ H. rewrite Hn in H. discriminate.
+Qed.
+Lemma links_consistent_nolinks sroot : no_link_groups sroot -> links_consistent sroot.
+Proof. intro H. exists (fun _ => sdent sroot). apply cons_s_nolinks. auto. Qed.
 
 Lemma xattrs_eqb_refl a : xattrs_eqb a a = true.
 Proof. induction a as [|[k v] a IH]; simpl; auto. rewrite !bytes_eqb_refl, IH. auto. Qed.
@@ -24,9 +34,10 @@ Proof.
   destruct (x_known e); cbn [negb orb]; auto. rewrite (Hk eq_refl), N.eqb_refl. auto.
 Qed.
 
-Lemma view_matches_of_inv o fs X : Inv o fs X -> strict fs X -> view_matches (view_of_fs fs) X.
+Lemma view_matches_of_inv o ms multi sdof fs X im :
+  Inv o fs X -> Lk o ms multi sdof fs X im -> strict fs X -> view_matches (view_of_fs fs) X.
 Proof.
-  intros I S. split.
+  intros I L S. split.
   - intro p. unfold match_at, view_of_fs. destruct (names fs p) as [i|] eqn:E.
     + destruct (i_some _ _ _ I _ _ E) as (e & E1 & E2 & _). rewrite E1. eapply dent_match_of_dm; eauto.
     + rewrite (i_none _ _ _ I _ E). auto.
@@ -34,16 +45,36 @@ Proof.
     destruct (names fs p) as [i|] eqn:Ep; auto. destruct (names fs q) as [j|] eqn:Eq; auto.
     destruct (i_some _ _ _ I _ _ Ep) as (e1 & A1 & _ & A3). destruct (i_some _ _ _ I _ _ Eq) as (e2 & B1 & _ & B3).
     rewrite A1, B1. destruct (is_dir (inodes fs i) || is_dir (inodes fs j)); auto.
-    destruct (x_key e1) as [a|p1|s1] eqn:K1, (x_key e2) as [b|q1|s2] eqn:K2; simpl in A3, B3; try contradiction; simpl ikey_eqb.
+    destruct (x_key e1) as [a|p1|s1] eqn:K1, (x_key e2) as [b|q1|s2] eqn:K2; simpl in A3, B3; simpl ikey_eqb.
     + subst. destruct (N.eqb i j); auto.
     + subst. destruct B3 as [-> B3]. destruct (N.eqb i j) eqn:E; auto. apply N.eqb_eq in E. subst j.
       apply B3 in Ep. subst. congruence.
+    + (* KDst / KSrc *)
+      subst a. destruct (N.eqb i j) eqn:E; auto. apply N.eqb_eq in E. subst j.
+      destruct (lk_src _ _ _ _ _ _ _ L _ _ _ B1 K2) as (l & i' & R1 & R2). rewrite Eq in R2. inversion R2; subst i'.
+      destruct (lk_mem _ _ _ _ _ _ _ L _ _ _ _ R1 Ep) as (e0 & C1 & C2 & _). rewrite A1 in C1. inversion C1; subst. congruence.
     + subst. destruct A3 as [-> A3]. destruct (N.eqb i j) eqn:E; auto. apply N.eqb_eq in E. subst j.
       apply A3 in Eq. subst. congruence.
     + destruct A3 as [-> A3], B3 as [-> B3]. destruct (N.eqb i j) eqn:E.
       * apply N.eqb_eq in E. subst j. apply A3 in Eq. subst. rewrite path_eqb_refl. auto.
       * destruct (path_eqb p q) eqn:E2; auto. apply path_eqb_eq in E2. subst. rewrite Ep in Eq. inversion Eq; subst.
         rewrite N.eqb_refl in E. discriminate.
+    + destruct A3 as [-> A3]. destruct (N.eqb i j) eqn:E; auto. apply N.eqb_eq in E. subst j.
+      apply A3 in Eq. subst. congruence.
+    + (* KSrc / KDst *)
+      subst b. destruct (N.eqb i j) eqn:E; auto. apply N.eqb_eq in E. subst j.
+      destruct (lk_src _ _ _ _ _ _ _ L _ _ _ A1 K1) as (l & i' & R1 & R2). rewrite Ep in R2. inversion R2; subst i'.
+      destruct (lk_mem _ _ _ _ _ _ _ L _ _ _ _ R1 Eq) as (e0 & C1 & C2 & _). rewrite B1 in C1. inversion C1; subst. congruence.
+    + destruct B3 as [-> B3]. destruct (N.eqb i j) eqn:E; auto. apply N.eqb_eq in E. subst j.
+      apply B3 in Ep. subst. congruence.
+    + (* KSrc / KSrc *)
+      destruct (lk_src _ _ _ _ _ _ _ L _ _ _ A1 K1) as (l1 & i1 & R1 & R2). rewrite Ep in R2. inversion R2; subst i1.
+      destruct (lk_src _ _ _ _ _ _ _ L _ _ _ B1 K2) as (l2 & i2 & R3 & R4). rewrite Eq in R4. inversion R4; subst i2.
+      destruct (N.eqb s1 s2) eqn:Es.
+      * apply N.eqb_eq in Es. subst s2. rewrite R1 in R3. inversion R3; subst. rewrite N.eqb_refl. auto.
+      * destruct (N.eqb i j) eqn:E; auto. apply N.eqb_eq in E. subst j.
+        destruct (lk_mem _ _ _ _ _ _ _ L _ _ _ _ R3 Ep) as (e0 & C1 & C2 & _). rewrite A1 in C1. inversion C1; subst.
+        rewrite K1 in C2. inversion C2; subst. rewrite N.eqb_refl in Es. discriminate.
 Qed.
 
 (* ---- what errors the specification can report ---- *)
@@ -93,13 +124,15 @@ Section Thm.
   Variable o : copts.
   Variable sroot : snode.
   Hypothesis Hsrc : wf_src sroot.
-  Hypothesis Hnl : no_link_groups sroot.
+  Hypothesis Hlc : links_consistent sroot.
+  (* link groups are handled for one literal source; several (wildcard) sources only without them *)
+  Hypothesis Hmode : no_link_groups sroot \/ o_wild o = false.
 
   Lemma sel_all_true : forall p, sel_all p = true. Proof. reflexivity. Qed.
 
   Lemma top fs src dst : wf_fs fs ->
-    top_ok o (overlay_all o sroot (view_of_fs fs) src dst) (copy_top o sel_all sroot fs src dst).
-  Proof. destruct Hsrc. apply copy_top_ok; auto. Qed.
+    exists sdof, top_ok o sroot sdof (overlay_all o sroot (view_of_fs fs) src dst) (copy_top o sel_all sroot fs src dst).
+  Proof. destruct Hsrc. destruct Hlc as (sdof & Hc). exists sdof. apply copy_top_ok; auto. Qed.
 
   (* C15: the result of a successful Copy is the overlay of the source(s) over the destination *)
   Theorem copy_overlay_partial_proof fs src dst r :
@@ -108,8 +141,8 @@ Section Thm.
                 view_matches (view_of_fs (c_fs st')) (xr_view r) /\
                 rev (c_notifs st') = xr_notifs r.
   Proof.
-    intros Hfs E. pose proof (top fs src dst Hfs) as H. rewrite E in H.
-    destruct H as (st' & H1 & H2 & H3 & H4 & _). exists st'. split; auto. split; auto.
+    intros Hfs E. destruct (top fs src dst Hfs) as (sdof & H). rewrite E in H.
+    destruct H as (st' & H1 & H2 & H3 & H4 & _ & _ & _ & _ & H9). exists st'. split; auto. split; auto.
     eapply view_matches_of_inv; eauto.
   Qed.
 
@@ -118,7 +151,7 @@ Section Thm.
     wf_fs fs -> overlay_all o sroot (view_of_fs fs) src dst = inr xe ->
     exists st' e, copy_top o sel_all sroot fs src dst = (st', Some e) /\ err_cls e = xerr_cls xe.
   Proof.
-    intros Hfs E. pose proof (top fs src dst Hfs) as H. rewrite E in H.
+    intros Hfs E. destruct (top fs src dst Hfs) as (sdof & H). rewrite E in H.
     destruct H as (st' & e & H1 & H2 & _). eauto.
   Qed.
 
@@ -186,7 +219,7 @@ Section Thm.
       names (c_fs st') p = Some i /\ dent_match (inodes (c_fs st') i) be = true /\
       (forall j, x_key be = KDst j -> i = j).
   Proof.
-    intros Hfs E. pose proof (top fs src dst Hfs) as H. rewrite E in H.
+    intros Hfs E. destruct (top fs src dst Hfs) as (sdof & H). rewrite E in H.
     destruct (overlay_all_conflict _ _ _ _ _ _ E) as (Hr & be & Hb & Hcls). split; auto.
     destruct H as (st' & e & H1 & H2 & _ & (X' & I' & S' & HX & _)).
     rewrite Hb in HX. destruct (inv_x_some _ _ _ _ _ I' HX) as (i & Hi & Hm & Hk).
@@ -220,15 +253,16 @@ Section Wf.
   Variable o : copts.
   Variable sroot : snode.
   Hypothesis Hsrc : wf_src sroot.
-  Hypothesis Hnl : no_link_groups sroot.
+  Hypothesis Hlc : links_consistent sroot.
+  Hypothesis Hmode : no_link_groups sroot \/ o_wild o = false.
 
   (* a successful Copy leaves a well-formed file system (so it can be copied onto again) *)
   Theorem copy_preserves_wf_proof fs src dst st' :
     wf_fs fs -> copy_top o sel_all sroot fs src dst = (st', None) -> wf_fs (c_fs st').
   Proof.
-    intros Hfs E. pose proof (top o sroot Hsrc Hnl fs src dst Hfs) as H.
+    intros Hfs E. destruct (top o sroot Hsrc Hlc Hmode fs src dst Hfs) as (sdof & H).
     destruct (overlay_all o sroot (view_of_fs fs) src dst) as [r|xe].
-    - destruct H as (st'' & E1 & I & _ & _ & _ & _ & _ & Hroot). rewrite E in E1. inversion E1; subst st''.
+    - destruct H as (st'' & E1 & I & _ & _ & _ & _ & _ & Hroot & _). rewrite E in E1. inversion E1; subst st''.
       split; [apply (i_lt _ _ _ I)|]. split; [apply (i_par _ _ _ I)|]. split; [apply (i_diru _ _ _ I)|].
       eapply inv_x_isdir; eauto.
     - destruct H as (st'' & e & E1 & _). rewrite E in E1. discriminate.
